@@ -1,10 +1,15 @@
 """C19 — password hashing (mpgameserver/auth.py).
-Correspondence units: auth_verify, auth_hash (+ auth_split, auth_prepare, auth_unpack, auth_consts).
-sha256, base64 and scrypt are oracles of the model: the harness asks the MODEL which queries it
-makes (fields of the split string, the scrypt call it prepared) and answers them with the real
-libraries, so the string parsing / glue is compared exactly and the libraries are never
-re-implemented.  Oracle: the property restated over the implementation alone; a True result is
-re-derived independently with hashlib (a different scrypt / sha256 binding).
+Correspondence units: auth_verify, auth_prepare, auth_hash, auth_split, auth_unpack, auth_consts, auth_b64encode
+(+ auth_b64strict, the reference decoder that witnesses the consistency of the decoder premises).
+sha256, base64 DEcoding and scrypt are oracles of the model: the harness asks the MODEL which queries it
+makes (fields of the split string, the scrypt call it prepared) and answers them with the real libraries,
+so the string parsing / glue is compared exactly and those libraries are never re-implemented.  The
+scrypt call the IMPLEMENTATION prepares is observed through a recording wrapper around scrypt.Scrypt and
+compared with the model's `prepare` (salt, length, N, r, p, expected digest, key material).
+base64.b64encode is modelled (Model/Base64.v) and compared with the library directly.
+Oracle: `spec`, an independent restatement of verify_password written from the property (hashlib's
+scrypt / sha256, a different binding), must agree with the implementation on every case, and the
+generator's own expectation for the case (honest pair / corruption class) must be met.
 
 Cost: one scrypt derivation with the code's parameters (N=16384, r=16) is ~0.08 s.  Real hashes
 are used for a small set; the sweeps (every truncation, every single-character edit, parameter
@@ -16,14 +21,21 @@ RULE = ("real hashes of a small password set (empty, NUL, 10 kB, near-identical 
         "and with near-miss passwords; same-format hashes with cheap scrypt parameters corrupted in every way: "
         "every truncation position, every field removed / duplicated, every single-character replacement / "
         "deletion / insertion in each field, every (salt_length, length) pair on a grid, every parameter byte "
-        "edit, wrong argument types; non-trivial = a corrupted string that still has four fields and decodes "
+        "edit, wrong argument types, the D14 witnesses; non-trivial = a corrupted string that still has four fields and decodes "
         "(reaches scrypt) or an honest pair")
-ASSUMPTIONS = ["base64 round trip, ':' never in base64 output, a proper prefix of an encoding does not decode to the "
-               "same length (hypotheses of the theorems; sampled here on every encode / every truncation)",
-               "scrypt.derive returns exactly `length` bytes; its only failures are ValueError (hypotheses; observed)",
-               "a wrong password is rejected unless scrypt(sha256(.)) collides for the pair (premise of verify_other_false)",
-               "os.urandom returns 16 bytes, distinct between calls (premise of fresh_salt_differs)"]
-TRUSTED = ["cryptography (SHA256, Scrypt), base64, os.urandom: oracles of the model, answers taken from the real libraries",
+ASSUMPTIONS = ["premises of the theorems about base64.b64decode: b64decode(b64encode(x)) = x (b64_roundtrip); a proper prefix "
+               "of an encoding is refused or decodes to fewer bytes (b64_prefix_shorter); it fails with binascii.Error, a "
+               "ValueError, only (b64_err_value) - each sampled here on the real library (every encode, every prefix, every "
+               "field the code decodes); that ':' is never in the encoder's output is PROVED of the modelled encoder",
+               "premises about scrypt: derive returns exactly `length` bytes (kdf_length); constructor/derive fail with "
+               "ValueError only (kdf_err_value); failure does not depend on the key material (kdf_err_params) - the first two "
+               "observed on every derivation made here",
+               "kdf-injectivity is a premise of verify_other_false, stated per pair: scrypt(sha256(q)) != scrypt(sha256(p)) under "
+               "the salt; verify_other_iff proves the premise is also necessary",
+               "os.urandom returns 16 bytes (len salt = 16), distinct between the two calls (premise s1 <> s2 of fresh_salt_differs)",
+               "str.encode('utf-8') of the hash string is an input of the model (PStr enc); UnicodeEncodeError counts as ValueError"]
+TRUSTED = ["cryptography (SHA256, Scrypt), base64.b64decode, os.urandom, str.encode: oracles of the model, answers taken from the real "
+           "libraries; what the theorems assume of them is listed under assumptions",
            "CPU/memory cost of verification with hostile embedded parameters (N*r*p up to 32768*255*255) is not covered"]
 
 STD = 16384 * 16 * 1
@@ -36,6 +48,14 @@ class Ctx:
         self.kdf_cache = {}
         self.expensive = 0
         self.skipped = 0
+        self.kinds = {}
+
+    def violation(self, what, case, site):
+        """at most 5 recorded failures per kind, so the replay file shows every kind that occurred"""
+        self.kinds[what] = self.kinds.get(what, 0) + 1
+        self.run.count("violation_" + what)
+        if self.kinds[what] <= 5:
+            self.run.oracle_violation(what, case, site)
 
     def sha(self, b):
         from cryptography.hazmat.primitives import hashes
@@ -53,7 +73,12 @@ class Ctx:
                 return scrypt.Scrypt(salt, ln, N, r, p).derive(km)
             if cost(N, r, p) >= STD // 4:
                 self.expensive += 1
-            self.kdf_cache[key] = lib.guarded(go)
+            a = self.kdf_cache[key] = lib.guarded(go)
+            # premises kdf_length / kdf_err_value of the theorems, observed on the real library
+            if a[0] == 0 and len(a[1]) != ln:
+                self.violation("scrypt-length-hypothesis", {"salt": salt, "length": ln, "N": N, "r": r, "p": p}, "scrypt.Scrypt")
+            if a[0] == 1 and a[1] != lib.ERR["ValueError"]:
+                self.violation("scrypt-error-kind-hypothesis", {"salt": salt, "length": ln, "N": N, "r": r, "p": p, "code": a[1]}, "scrypt.Scrypt")
         return self.kdf_cache[key]
 
 
@@ -78,6 +103,13 @@ def b64d_real(part):
     return lib.guarded(base64.b64decode, part)
 
 
+def b64d_checked(ctx, part):
+    a = b64d_real(part)
+    if a[0] == 1 and a[1] != lib.ERR["ValueError"]:      # premise b64_err_value
+        ctx.violation("base64-error-kind-hypothesis", {"input": part, "code": a[1]}, "base64.b64decode")
+    return a
+
+
 def as_flag(x):
     return 1 if x is True else 0 if x is False else ["not-a-bool", repr(x)]
 
@@ -90,35 +122,51 @@ def make_hash(pw, salt, N=4, r=1, p=1, sl=None, ln=8, kind="scrypt", version="1"
     return "%s:%s:%s:%s" % (kind, version, base64.b64encode(params).decode(), base64.b64encode(salt + out).decode())
 
 
-def matches(pw, h):
-    """independent restatement of 'h is a hash of pw': four fields, decodable, consistent lengths,
-    digest of at least one byte equal to scrypt(sha256(pw)) under the embedded parameters"""
+_spec_cache = {}
+
+
+def spec(pw, h):
+    """independent restatement of verify_password (written from the property, not from the code or the
+    Coq text; scrypt/sha256 through hashlib, a different binding): 'raise' for wrong argument types and
+    for every string that is not `scrypt:1:b64(6-byte params):b64(salt+digest)` with length >= 1 and
+    salt_length + length = len(data), or whose scrypt parameters the library refuses; otherwise whether
+    the digest equals scrypt(sha256(pw)) under the embedded salt and parameters"""
     if not isinstance(pw, bytes) or not isinstance(h, str):
-        return False
+        return "raise"
     parts = h.split(":")
     if len(parts) != 4 or parts[0] != "scrypt" or parts[1] != "1":
-        return False
+        return "raise"
     try:
         params = base64.b64decode(parts[2].encode("utf-8"))
         data = base64.b64decode(parts[3].encode("utf-8"))
     except ValueError:
-        return False
+        return "raise"
     if len(params) != 6:
-        return False
+        return "raise"
     N, r, p, sl, ln = struct.unpack(">HBBBB", params)
     if ln < 1 or sl + ln != len(data):
-        return False
-    try:
-        d = hashlib.scrypt(hashlib.sha256(pw).digest(), salt=data[:sl], n=N, r=r, p=p, dklen=ln, maxmem=2 ** 31 - 1)
-    except ValueError:
-        return False
-    return d == data[sl:]
+        return "raise"
+    key = (pw, params, data[:sl])
+    if key not in _spec_cache:
+        try:
+            _spec_cache[key] = hashlib.scrypt(hashlib.sha256(pw).digest(), salt=data[:sl], n=N, r=r, p=p, dklen=ln, maxmem=2 ** 31 - 1)
+        except ValueError:
+            _spec_cache[key] = None
+    d = _spec_cache[key]
+    return "raise" if d is None else d == data[sl:]
+
+
+def matches(pw, h):
+    return spec(pw, h) is True
 
 
 # ------------------------------------------------------------------ verify pipeline
 
 def verify_batch(ctx, cases, unit="auth_verify"):
-    """cases: list of dict(pw=, h=, tag=, expect=None|True|False|'reject').  Correspondence + oracle."""
+    """cases: list of dict(pw=, h=, tag=, expect=None|True|False|'reject'|'raise').  Correspondence + oracle.
+    expect: True/False = honest pair, must return exactly that; 'raise' = truncated / wrong field count /
+    wrong method: must raise ValueError|TypeError; 'reject' = must not return True; None = judged by the
+    independent re-derivation `matches` (True only if the decoded record really matches)."""
     from mpgameserver.auth import Auth
     run, M = ctx.run, ctx.run.model
     # stage 1: the model's split of the encoded string -> real b64decode answers for its fields
@@ -137,7 +185,7 @@ def verify_batch(ctx, cases, unit="auth_verify"):
     run.compare("auth_split", [enc[i] for i in idx], [enc[i].split(b":") for i in idx], parts)
     b64tabs = {}
     for i, ps in zip(idx, parts):
-        b64tabs[i] = [[p, b64d_real(p)] for p in dict.fromkeys(ps)]
+        b64tabs[i] = [[p, b64d_checked(ctx, p)] for p in dict.fromkeys(ps)]
     # stage 2: the model's prepared scrypt call -> real scrypt answer (screened by cost)
     preps = M.call_many("auth_prepare", [[enc[i], b64tabs[i]] for i in idx])
     kdftabs, keep = {}, []
@@ -155,16 +203,61 @@ def verify_batch(ctx, cases, unit="auth_verify"):
     live = [i for i, c in enumerate(cases) if not c.get("skip")]
     # stage 3: implementation and model
     impl, margs = [], []
+    prep_of = dict(zip(idx, preps))
+    p_cases, p_impl, p_mod = [], [], []
     for i in live:
         c = cases[i]
-        impl.append(lib.guarded(Auth.verify_password, c["pw"], c["h"], wrap=as_flag))
+        o, calls = spied_verify(c["pw"], c["h"])
+        impl.append(o)
+        # the scrypt call the IMPLEMENTATION prepared (observed through a recording wrapper around
+        # scrypt.Scrypt) against the model's `prepare`: salt, length, N, r, p, expected digest, key material
+        if i in prep_of:
+            pr = prep_of[i]
+            init = [x for x in calls if x[0] == "init"]
+            ver = [x for x in calls if x[0] == "verify"]
+            if pr[0] == 0:
+                km = ctx.sha(c["pw"])
+                want = [0, pr[1][:5] + ([pr[1][5], km] if ver else [])]
+            else:
+                want = [1, pr[1]]
+            if len(init) > 1 or len(ver) > 1 or (ver and not init):
+                got = ["unexpected scrypt calls", [x[0] for x in calls]]
+            elif init:
+                got = [0, init[0][1:] + (ver[0][1:][::-1] if ver else [])]
+            else:
+                got = o if o[0] == 1 else ["no scrypt call but a result", o]
+            p_cases.append(describe(c)); p_impl.append(got); p_mod.append(want)
         shatab = [[c["pw"], ctx.sha(c["pw"])]] if isinstance(c["pw"], bytes) else []
         margs.append([v_py(c["pw"]), v_py(c["h"]), shatab, b64tabs.get(i, []), kdftabs.get(i, [])])
     mod = M.call_many("auth_verify", margs)
     run.compare(unit, [describe(cases[i]) for i in live], impl, mod)
+    run.compare("auth_prepare", p_cases, p_impl, p_mod)
     for i, o in zip(live, impl):
         judge(ctx, cases[i], o)
     return {i: o for i, o in zip(live, impl)}
+
+
+def spied_verify(pw, h):
+    """Auth.verify_password with scrypt.Scrypt wrapped by a recorder (the real class does the work)"""
+    import mpgameserver.auth as A
+    real = A.scrypt.Scrypt
+    calls = []
+
+    class Spy:
+        def __init__(self, salt, length, n, r, p, backend=None):
+            calls.append(["init", salt, length, n, r, p])
+            self.k = real(salt, length, n, r, p)
+
+        def verify(self, key_material, expected):
+            calls.append(["verify", key_material, expected])
+            return self.k.verify(key_material, expected)
+
+        def derive(self, key_material):
+            calls.append(["derive", key_material])
+            return self.k.derive(key_material)
+    with unittest.mock.patch.object(A.scrypt, "Scrypt", Spy):
+        o = lib.guarded(A.Auth.verify_password, pw, h, wrap=as_flag)
+    return o, calls
 
 
 def describe(c):
@@ -173,33 +266,42 @@ def describe(c):
 
 
 def judge(ctx, c, o):
-    """the property on the implementation alone"""
+    """the property on the implementation alone: the generator's expectation for the case (honest pair /
+    corruption class) and the independent specification `spec` must both be met"""
     run = ctx.run
     run.evaluations += 1
     run.count("verify_" + c["tag"].split(":")[0])
     d = dict(describe(c), observed=o)
     site = "Auth.verify_password"
+    want = spec(c["pw"], c["h"])
+    exp = c.get("expect")
     if o[0] == 1:
         run.count("outcome_raise_%d" % o[1])
         if o[1] not in (lib.ERR["ValueError"], lib.ERR["TypeError"], lib.ERR["UnicodeError"]):
-            run.oracle_violation("wrong-exception-kind", d, site)
-        elif c.get("expect") in (True, False):
-            run.oracle_violation("honest-hash-raises", d, site)
+            ctx.violation("wrong-exception-kind", d, site)
+        elif exp in (True, False):
+            ctx.violation("honest-hash-raises", d, site)
+        elif want != "raise":
+            ctx.violation("wellformed-hash-raises", d, site)
     elif o[1] == 1:
         run.count("outcome_true")
-        if c.get("expect") == "reject":
-            run.oracle_violation("corrupted-hash-accepted", d, site)
-        elif c.get("expect") is False:
-            run.oracle_violation("other-password-accepted", d, site)
-        elif not matches(c["pw"], c["h"]):
-            run.oracle_violation("accepts-without-match", d, site)
+        if exp in ("reject", "raise"):
+            ctx.violation("corrupted-hash-accepted", d, site)
+        elif exp is False:
+            ctx.violation("other-password-accepted", d, site)
+        elif want is not True:
+            ctx.violation("accepts-without-match", d, site)
     elif o[1] == 0:
         run.count("outcome_false")
-        if c.get("expect") is True:
-            run.oracle_violation("own-password-rejected", d, site)
+        if exp is True:
+            ctx.violation("own-password-rejected", d, site)
+        elif exp == "raise" or want == "raise":
+            ctx.violation("malformed-hash-not-refused", d, site)
+        elif want is True:
+            ctx.violation("matching-hash-rejected", d, site)
     else:
-        run.oracle_violation("result-not-a-bool", d, site)
-    if c.get("reaches_kdf") or c.get("expect") in (True, False):
+        ctx.violation("result-not-a-bool", d, site)
+    if c.get("reaches_kdf") or exp in (True, False):
         run.nt((repr(c["pw"]), repr(c["h"])))
 
 
@@ -226,12 +328,9 @@ def hash_batch(ctx, cases):
         if isinstance(pw, bytes):
             km = ctx.sha(pw)
             ka = ctx.kdf(salt, DL, N, r, p, km)
-            b64 = [[packed, base64.b64encode(packed)]]
-            if ka[0] == 0:
-                b64.append([salt + ka[1], base64.b64encode(salt + ka[1])])
-            margs.append([v_py(pw), salt, [[pw, km]], b64, [[[salt, DL, N, r, p, km], ka]]])
+            margs.append([v_py(pw), salt, [[pw, km]], [[[salt, DL, N, r, p, km], ka]]])
         else:
-            margs.append([v_py(pw), salt, [], [], []])
+            margs.append([v_py(pw), salt, [], []])
     mod = M.call_many("auth_hash", margs)
     run.compare("auth_hash", [{"password": pw if isinstance(pw, bytes) else repr(pw), "salt": salt} for pw, salt in cases], impl, mod)
     return impl
@@ -246,18 +345,18 @@ def corruptions(h, rng, every=True):
     """(tag, corrupted string, expectation) for one valid hash string h"""
     out = []
     for n in range(len(h)):
-        out.append(("trunc:%d" % n, h[:n], "reject"))
+        out.append(("trunc:%d" % n, h[:n], "raise"))
     f = h.split(":")
     for i in range(4):
-        out.append(("field-removed:%d" % i, ":".join(f[:i] + f[i + 1:]), "reject"))
-        out.append(("field-emptied:%d" % i, ":".join(f[:i] + [""] + f[i + 1:]), "reject"))
-        out.append(("field-duplicated:%d" % i, ":".join(f[:i] + [f[i]] + f[i:]), "reject"))
-    out.append(("field-extra", h + ":", "reject"))
-    out.append(("field-extra", h + ":AAAA", "reject"))
-    out.append(("field-extra", ":" + h, "reject"))
+        out.append(("field-removed:%d" % i, ":".join(f[:i] + f[i + 1:]), "raise"))
+        out.append(("field-emptied:%d" % i, ":".join(f[:i] + [""] + f[i + 1:]), "raise"))
+        out.append(("field-duplicated:%d" % i, ":".join(f[:i] + [f[i]] + f[i:]), "raise"))
+    out.append(("field-extra", h + ":", "raise"))
+    out.append(("field-extra", h + ":AAAA", "raise"))
+    out.append(("field-extra", ":" + h, "raise"))
     for k, v in (("Scrypt", "1"), ("scrypt ", "1"), ("", "1"), ("scrypt", "2"), ("scrypt", ""), ("scrypt", "01"),
                  ("scrypt", "1 "), ("bcrypt", "1"), ("scrypt", "١")):
-        out.append(("method", ":".join([k, v] + f[2:]), "reject"))
+        out.append(("method", ":".join([k, v] + f[2:]), "raise"))
     # single-character edits inside the two base64 fields: None = judged by re-derivation (an edit the
     # lenient decoder discards, or a padding change, leaves the decoded record unchanged)
     for fi in (2, 3):
@@ -279,8 +378,9 @@ def param_edits(pw, salt, out_len=8):
     data = base64.b64decode(f[3])
     res = []
     L = len(data)
-    for sl in sorted(set([0, 1, len(salt) - 1, len(salt), len(salt) + 1, L - 1, L, L + 1, 255])):
-        for ln in sorted(set([0, 1, out_len - 1, out_len, out_len + 1, L - sl if 0 <= L - sl <= 255 else 0, L, 255])):
+    byte = lambda xs: sorted(set(x for x in xs if 0 <= x <= 255))
+    for sl in byte([0, 1, len(salt) - 1, len(salt), len(salt) + 1, L - 1, L, L + 1, 255]):
+        for ln in byte([0, 1, out_len - 1, out_len, out_len + 1, L - sl, L, 255]):
             for N in (4, 2):
                 params = struct.pack(">HBBBB", N, 1, 1, sl, ln)
                 res.append(("param-lengths", ":".join(f[:2] + [base64.b64encode(params).decode(), f[3]])))
@@ -331,6 +431,9 @@ def run(run):
     # ---- hash_password: correspondence on chosen salts (os.urandom patched for the call)
     nreal = len(PASSWORDS) if run.thorough() else 5
     pws = PASSWORDS[:nreal]
+    if run.thorough():      # more real hashes: random passwords of many lengths (with NULs), near-identical pairs
+        for n in (1, 2, 3, 7, 8, 15, 16, 17, 31, 32, 33, 55, 56, 63, 64, 65, 100, 255, 256, 1000):
+            pws.append(bytes(rng.choice([0, 0, 1, 97, 255, rng.randrange(256)]) for _ in range(n)))
     hcases = [(p, bytes(rng.randrange(256) for _ in range(16))) for p in pws]
     hcases += [(pws[1], hcases[1][1][::-1]), (pws[2], hcases[1][1])]      # same password other salt; other password same salt
     bad_pw = ["password", None, bytearray(b"pw"), 5, ["a"]]
@@ -345,6 +448,17 @@ def run(run):
         cases.append({"pw": pw, "h": h, "tag": "own", "expect": True})
         for q in near_misses(pw, rng)[:(3 if run.thorough() else 1)]:
             cases.append({"pw": q, "h": h, "tag": "other", "expect": False})
+    # ---- corpus: the witnesses of defect D14 (repaired by 4296d71), kept so that the violation is
+    # reported if it returns: missing fields (was IndexError) and length=0 / salt_length>=len(data)
+    # with the real parameters (was True for every password)
+    rp, rh = honest[0]
+    rf = rh.split(":")
+    rdata = base64.b64decode(rf[3])
+    for q in (rp, b"anything", b""):
+        for hs in ("scrypt:1:QAAQASgA:ZGF0YQ==", ":".join(rf[:2] + ["QAAQASgA", rf[3]]),
+                   ":".join(rf[:2] + ["QAAQARAA", base64.b64encode(rdata[:16]).decode()]),
+                   ":".join(rf[:2] + ["QAAQAf8A", rf[3]]), ":".join(rf[:3]), ":".join(rf[:2]), "scrypt", ""):
+            cases.append({"pw": q, "h": hs, "tag": "corpus:D14", "expect": "raise"})
     # ---- O3: fresh salt: two real calls (real os.urandom) give different strings, each verifies
     h1, h2 = Auth.hash_password(b"twice"), Auth.hash_password(b"twice")
     run.evaluations += 1
@@ -359,16 +473,26 @@ def run(run):
         cases.append({"pw": x, "h": h1, "tag": "types"})
     for x in (h1.encode(), None, 7, bytearray(b"scrypt:1:a:b"), "scrypt:1:\udc80:x", "\ud800", "scrypt:1:é:ü"):
         cases.append({"pw": b"twice", "h": x, "tag": "types"})
-    # truncation of one real hash at every position, both passwords
+    # truncation of real hashes at every position, right and another password
     real_pw, real_h = honest[2] if len(honest) > 2 else honest[0]
-    for n in range(len(real_h)):
-        cases.append({"pw": real_pw, "h": real_h[:n], "tag": "trunc:real", "expect": "reject"})
+    for tp, th in ([(real_pw, real_h)] + (honest[3:6] if run.thorough() else [])):
+        for n in range(len(th)):
+            cases.append({"pw": tp, "h": th[:n], "tag": "trunc:real", "expect": "raise"})
+            if run.thorough() or n % 4 == 0:
+                cases.append({"pw": tp + b"x", "h": th[:n], "tag": "trunc:real", "expect": "raise"})
+    # base64 damage inside the data field of a real hash: one character replaced (a change in the salt
+    # part costs one real derivation; judged by the independent specification)
+    rf3 = real_h.split(":")
+    pos = range(len(rf3[3])) if run.thorough() else sorted(rng.sample(range(len(rf3[3])), 5))
+    for j in pos:
+        ch = ALPHA[(ALPHA.index(rf3[3][j]) + 1 + rng.randrange(62)) % 64] if rf3[3][j] in ALPHA else "A"
+        cases.append({"pw": real_pw, "h": ":".join(rf3[:3] + [rf3[3][:j] + ch + rf3[3][j + 1:]]), "tag": "b64-replace:real"})
     verify_batch(ctx, cases)
     run.exhaustive.append("every truncation position (0..%d) of a real hash string" % (len(real_h) - 1))
     run.sample({"unit": "auth_verify", "password": "hex:" + real_pw.hex()[:40], "hash": real_h, "result": True})
 
     # ---- sweeps on same-format hashes with cheap parameters
-    nforged = 40 if run.thorough() else 6
+    nforged = 200 if run.thorough() else 10
     total = 0
     for k in range(nforged):
         pw = rng.choice(PASSWORDS[:6] + [bytes(rng.randrange(256) for _ in range(rng.randrange(0, 40)))])
@@ -392,6 +516,35 @@ def run(run):
     run.count("cheap_hash_cases", total)
     run.exhaustive.append("per cheap hash: every truncation, every field removed/emptied/duplicated, every single-character "
                           "replacement/deletion/insertion in both base64 fields, (salt_length, length) grid")
+
+    # ---- base64.b64encode is modelled exactly: correspondence of the encoder
+    ecases = [bytes([a]) for a in range(256)] + [b""]
+    if run.thorough():
+        ecases += [bytes([a, b]) for a in range(256) for b in range(256)]
+        run.exhaustive.append("b64encode: every input of length 0, 1 and 2")
+    else:
+        ecases += [bytes([a, b]) for a in range(0, 256, 5) for b in (0, 1, 15, 16, 63, 64, 127, 128, 254, 255)]
+        run.exhaustive.append("b64encode: every input of length 0 and 1")
+    for n in list(range(3, 80)) * (10 if run.thorough() else 2) + [255, 256, 257, 1000, 4099]:
+        ecases.append(bytes(rng.randrange(256) for _ in range(n)))
+    ecases += [bytes([a, b, c]) for a in (0, 3, 4, 252, 255) for b in (0, 15, 16, 240, 255) for c in (0, 63, 64, 192, 255)]
+    for _ in range(20000 if run.thorough() else 1500):
+        ecases.append(bytes(rng.randrange(256) for _ in range(3)))
+    run.compare("auth_b64encode", ecases, [base64.b64encode(x) for x in ecases], M.call_many("auth_b64encode", [[x] for x in ecases]))
+    # the reference decoder (consistency witness of the decoder hypotheses) against the validating
+    # library decoder on encodings, their prefixes and single-character damage
+    dcases = []
+    for x in ecases[:400] + ecases[-300:]:
+        e = base64.b64encode(x)
+        dcases.append(e)
+        if e:
+            j = rng.randrange(len(e))
+            dcases += [e[:j], e[:j] + bytes([rng.choice(b":!A/+z9 ")]) + e[j + 1:], e[:j] + e[j + 1:]]
+    dcases = list(dict.fromkeys(dcases))
+
+    def strict(x):
+        return base64.b64decode(x, validate=True)
+    run.compare("auth_b64strict", dcases, [lib.guarded(strict, x) for x in dcases], M.call_many("auth_b64strict", [[x] for x in dcases]))
 
     # ---- hypotheses about base64 sampled on the real library
     for n in list(range(0, 70)) + [100, 255, 1000]:
